@@ -16,6 +16,7 @@ import Cmr.Equimod
 import Cmr.Text
 import Cmr.Sums
 import Cmr.Tree
+import Cmr.Rel
 namespace Cmr
 
 inductive Verdict where
@@ -1041,6 +1042,178 @@ def judgeDecomp : P Verdict := do
         return .ok s!"{tag}:tu"
       | _ => return .ok tag
 
+/-! ### C10: relations between runs -/
+
+open P in
+/-- parse one step given the current shape -/
+def parseStep (m n : Nat) : P Step := do
+  let t ← tok
+  match t with
+  | "T" => pure .T
+  | "P" => do let rs ← many nat m; let cs ← many nat n; pure (.P rs cs)
+  | "S" => do let nr ← nat; let nc ← nat; let rs ← many nat nr; let cs ← many nat nc; pure (.S rs cs)
+  | "V2" => do let r ← nat; let c ← nat; pure (.V2 r c)
+  | "V3" => do let r ← nat; let c ← nat; pure (.V3 r c)
+  | "NR" => do let i ← nat; pure (.NR i)
+  | "NC" => do let j ← nat; pure (.NC j)
+  | "ZR" => do let p ← nat; pure (.ZR p)
+  | "ZC" => do let p ← nat; pure (.ZC p)
+  | "UR" => do let p ← nat; let j ← nat; let s ← int; pure (.UR p j s)
+  | "UC" => do let p ← nat; let i ← nat; let s ← int; pure (.UC p i s)
+  | "DR" => do let p ← nat; let i ← nat; let s ← int; pure (.DR p i s)
+  | "DC" => do let p ← nat; let j ← nat; let s ← int; pure (.DC p j s)
+  | o => throw s!"unknown step '{o}'"
+
+open P in
+/-- parse `k` steps, applying them to track the shape; returns the steps and the model's transformed matrix -/
+def parseSteps : Nat → Nat → Nat → Mat → P (List Step × Option (Nat × Nat × Mat))
+  | 0, m, n, M => pure ([], some (m, n, M))
+  | k+1, m, n, M => do
+    let s ← parseStep m n
+    match s.apply m n M with
+    | none => throw s!"step {repr s} not applicable to a {m}x{n} matrix"
+    | some (m', n', M') =>
+      let (rest, r) ← parseSteps k m' n' M'
+      pure (s :: rest, r)
+
+open P in
+def parseRecs : P (List (String × Nat)) := do
+  let mk ← nat
+  let names ← tok
+  pure ((names.splitOn ",").map (fun r => (r, mk)))
+
+open P in
+/-- verdict vector `v t1 … tk` with tokens `y`, `n`, `e:NAME` -/
+def parseVerdicts (k : Nat) : P (List String) := do
+  expect "v"
+  many tok k
+
+def stepKind : Step → String
+  | .T => "T" | .P _ _ => "P" | .S _ _ => "S" | .V2 _ _ => "V2" | .V3 _ _ => "V3" | .NR _ => "N" | .NC _ => "N"
+  | .ZR _ => "Z" | .ZC _ => "Z" | .UR _ _ _ => "U" | .UC _ _ _ => "U" | .DR _ _ _ => "D" | .DC _ _ _ => "D"
+
+/-- check the relation of one transformation for all recognizers; returns a failure message or the number of relations checked -/
+def checkRelations (recs : List (String × Nat)) (binaryIn ternaryIn : Bool) (steps : List Step) (v0 v1 : List String) :
+    Except String Nat := do
+  let mut count := 0
+  for (r, _) in recs, a in v0 do
+    let some c := Cls.ofString r | throw s!"unknown recognizer {r}"
+    if a.startsWith "e:" then throw s!"recognizer {r} failed with {a} on the base matrix"
+    if (c.binaryOnly && !binaryIn) || !ternaryIn then continue
+    let (c', rel) := stepsRel c steps
+    if rel == .none then continue
+    -- "Camion-signed" is the output of the signing algorithm; it is determined by the matrix only if the support is balanceable, in
+    -- which case it means "balanced": relate the Camion verdicts only for matrices the balancedness test accepts
+    if c == .cam then
+      let balIdx? := (recs.zipIdx.find? (fun ((r', _), _) => r' == "bal")).map (·.2)
+      match balIdx? with
+      | some bi => if v0.getD bi "?" != "y" then continue
+      | none => continue
+    -- find the verdict of the dual class on the transformed matrix
+    let idx? := (recs.zipIdx.find? (fun ((r', _), _) => Cls.ofString r' == some c')).map (·.2)
+    let some idx := idx? | continue
+    let b := v1.getD idx "?"
+    if b.startsWith "e:" then throw s!"recognizer {recs.getD idx ("", 0) |>.1} failed with {b} on the transformed matrix"
+    match rel with
+    | .iff => if a != b then throw s!"{r} says {a} for M but {(recs.getD idx ("", 0)).1} says {b} for g(M), g = {" ".intercalate (steps.map stepKind)}"
+    | .imp => if a == "y" && b != "y" then throw s!"{r} says yes for M but {(recs.getD idx ("", 0)).1} says {b} for the submatrix/minor g(M)"
+    | .none => pure ()
+    count := count + 1
+  pure count
+
+open P in
+def judgeRel : P Verdict := do
+  let recs ← parseRecs
+  let (m, n, M) ← denseMat
+  let ntr ← nat
+  -- the transformations are parsed lazily: each needs the base shape
+  let mut gs : List (List Step × Nat × Nat × Mat) := []
+  for _ in List.range ntr do
+    let ns ← nat
+    let (steps, r) ← parseSteps ns m n M
+    match r with
+    | some (m', n', M') => gs := gs ++ [(steps, m', n', M')]
+    | none => throw "inapplicable transformation"
+  expect "=>"
+  let status ← tok
+  if status != "ok" then return .fail "rel" s!"status {status}"
+  let v0 ← parseVerdicts recs.length
+  let binaryIn := isBinary M
+  let ternaryIn := isTernary M
+  let mut checked := 0
+  let mut kinds : List String := []
+  for (steps, m', n', M') in gs do
+    expect "|"
+    match (← peek) with
+    | some t => if t.startsWith "step-err:" then return .fail "rel:step" s!"transformation failed in the library: {t}"
+    | none => return .fail "rel" "truncated result"
+    let v1 ← parseVerdicts recs.length
+    let some A ← csr | return .fail "rel" "no transformed matrix"
+    match checkCsr A m' n' with
+    | .error e => return .fail "rel:csr" e
+    | .ok R =>
+      if R != M' then
+        return .fail "rel:transformation" s!"library transformation {" ".intercalate (steps.map stepKind)} gives {matToString R}, model {matToString M'}"
+      match checkRelations recs binaryIn ternaryIn steps v0 v1 with
+      | .error e => return .fail "rel:verdict" e
+      | .ok k => checked := checked + k
+      for s in steps do
+        if !kinds.contains (stepKind s) then kinds := kinds ++ [stepKind s]
+  if checked == 0 then return .skip "rel:no-relation"
+  let sz := if m + n < 12 then "small" else if m + n < 60 then "medium" else "large"
+  let ys := (v0.filter (· == "y")).length
+  return .ok s!"rel:{sz}:{if ys == 0 then "all-no" else if ys == v0.length then "all-yes" else "mixed"}:{kinds.length}-step-kinds"
+
+open P in
+def judgeRelsum : P Verdict := do
+  let recs ← parseRecs
+  let kind ← tok
+  let ch ← nat
+  let (m1, n1, M1) ← denseMat
+  let (m2, n2, M2) ← denseMat
+  let specials ← many idx (if kind == "1" then 0 else if kind == "2" then 4 else if kind == "3" then 10 else 6)
+  expect "=>"
+  let status ← tok
+  if status != "ok" then return .fail "relsum" s!"status {status}"
+  let v1 ← parseVerdicts recs.length
+  expect "|"
+  let v2 ← parseVerdicts recs.length
+  expect "|"
+  let tag := s!"relsum:{kind}:{ch}"
+  let model : Except String Mat :=
+    if kind == "1" then .ok (compose1 [(m1, n1, M1), (m2, n2, M2)]).2.2 else composeModel kind ch m1 n1 M1 m2 n2 M2 specials
+  match model with
+  | .error why =>
+    match (← peek) with
+    | some t => if t.startsWith "compose-err:" then return .skip s!"{tag}:rejected" else return .fail s!"{tag}:accepted-invalid" why
+    | none => return .fail tag "truncated result"
+  | .ok E =>
+    match (← peek) with
+    | some t => if t.startsWith "compose-err:" then return .fail s!"{tag}:rejected-valid" t
+    | none => return .fail tag "truncated result"
+    let vs ← parseVerdicts recs.length
+    let some A ← csr | return .fail tag "no sum"
+    match checkCsr A E.length (E.getD 0 []).length with
+    | .error e => if E.length == 0 || (E.getD 0 []).length == 0 then return .skip s!"{tag}:degenerate" else return .fail s!"{tag}:csr" e
+    | .ok R =>
+      if R != E then return .fail s!"{tag}:compose" s!"impl={matToString R} model={matToString E}"
+      let bin := isBinary M1 && isBinary M2
+      let tern := isTernary M1 && isTernary M2
+      let mut checked := 0
+      for (r, _) in recs, a in v1, b in v2, s in vs do
+        let some c := Cls.ofString r | return .fail tag s!"unknown recognizer {r}"
+        if a.startsWith "e:" || b.startsWith "e:" || s.startsWith "e:" then return .fail s!"{tag}:error" s!"{r}: {a} {b} {s}"
+        if (c.binaryOnly && !bin) || !tern then continue
+        match sumRel kind ch c with
+        | .none => continue
+        | .both =>
+          if (a == "y" && b == "y") != (s == "y") then return .fail s!"{tag}:verdict" s!"{r}: operands {a} {b}, 1-sum {s}"
+        | .closed =>
+          if a == "y" && b == "y" && s != "y" then return .fail s!"{tag}:verdict" s!"{r}: both operands yes, sum {s}"
+        checked := checked + 1
+      if checked == 0 then return .skip s!"{tag}:no-relation"
+      return .ok s!"{tag}:{if vs.contains "y" then "yes" else "no"}"
+
 /-! ### dispatcher -/
 
 def runP (p : P Verdict) (toks : List String) : Verdict :=
@@ -1111,6 +1284,8 @@ def judgeLine (line : String) : Verdict :=
       | "graphic" => runP judgeGraphic toks
       | "network" => runP judgeNetwork toks
       | "repmat" => runP judgeRepmat toks
+      | "rel" => runP judgeRel toks
+      | "relsum" => runP judgeRelsum toks
       | o => .badOp s!"unknown op '{o}'"
     match v, generic with
     | .fail t m, _ => .fail t m
